@@ -49,7 +49,7 @@ var (
 	vxC04UpsUIDs   []UID
 )
 
-func (vxC04DHCP) Leases() (leases []*dhcpsvc.Lease) { return nil }
+func (vxC04DHCP) Leases() (leases []*dhcpsvc.Lease)   { return nil }
 func (vxC04DHCP) HostByIP(_ netip.Addr) (host string) { return "" }
 func (vxC04DHCP) MACByIP(ip netip.Addr) (mac net.HardwareAddr) {
 	vxC04LeaseArgs = append(vxC04LeaseArgs, ip)
@@ -78,7 +78,10 @@ func vxC04CustomConf(m *upstreamManager, uid UID) (proxyConf *proxy.CustomUpstre
 func vxC04Overlaps(a, b []netip.Prefix) bool { return false }
 
 // vxC04SS is a client's own safe-search object (identity is what matters).
-type vxC04SS struct{ filtering.SafeSearch; owner int }
+type vxC04SS struct {
+	filtering.SafeSearch
+	owner int
+}
 
 func vxC04Storage() *Storage {
 	return &Storage{
